@@ -922,10 +922,38 @@ theorem log_hi_range {h : ℝ} (h1 : 1 / 2 ^ 1000 ≤ h) (h2 : h ≤ 2 ^ 960) :
     push_cast at this
     linarith
 
-/-- the generic branch of `ln` as two `add_assign` steps and the final expression -/
-theorem ln_eq_steps (v : TwoFloat)
+/-- the generic branch of the core of `ln` as two `add_assign` steps and the final expression -/
+theorem lnCore_eq_steps (v : TwoFloat)
     (h1 : base.impl_PartialEq_f64_for_TwoFloat.eq v (f64lit 0x3ff0000000000000) = false)
     (h2 : ROrd.isLe (base.impl_PartialOrd_f64_for_TwoFloat.partial_cmp v (f64lit 0)) = false) :
+    TwoFloat.lnCore v =
+      (let x0 := convert.impl_From_f64_for_TwoFloat.from (Libm.log v.hi)
+       let x1 := arithmetic.impl_AddAssign_TwoFloat_for_TwoFloat.add_assign x0 (corr v x0)
+       let x2 := arithmetic.impl_AddAssign_TwoFloat_for_TwoFloat.add_assign x1 (corr v x1)
+       arithmetic.impl_Sub_f64_for_TwoFloat.sub (arithmetic.impl_Add_TwoFloat_for_TwoFloat.add x2
+         (arithmetic.impl_Mul_TwoFloat_for_TwoFloat.mul v (TwoFloat.exp (arithmetic.impl_Neg_for_TwoFloat.neg x2))))
+         (f64lit 0x3ff0000000000000)) := by
+  unfold TwoFloat.lnCore
+  simp only [h1, h2]
+  rfl
+
+/-- a high word of value `≥ 2^-1000` fails the test `self.hi < 2^-1000` of the rescaling branch of `ln` -/
+theorem not_tiny_of_fv {v : TwoFloat} (hf : v.hi.is_finite = true) (hlo : 1 / 2 ^ 1000 ≤ fv v.hi) :
+    (v.hi <. f64lit 0x0170000000000000) = false := by
+  refine LnScale.not_tiny_of_hi_ge hf ?_
+  unfold fv at hlo
+  rw [div_le_div_iff₀ (by positivity) (by positivity)] at hlo
+  have e : (2 : ℝ) ^ 1074 = 2 ^ 74 * 2 ^ 1000 := by rw [← pow_add]
+  rw [e, one_mul] at hlo
+  have h2 : (2 : ℝ) ^ 74 ≤ (v.hi.toInt : ℝ) :=
+    le_of_mul_le_mul_right hlo (by positivity)
+  exact_mod_cast h2
+
+/-- the generic branch of `ln` (high word not below `2^-1000`) as two `add_assign` steps and the final expression -/
+theorem ln_eq_steps (v : TwoFloat)
+    (h1 : base.impl_PartialEq_f64_for_TwoFloat.eq v (f64lit 0x3ff0000000000000) = false)
+    (h2 : ROrd.isLe (base.impl_PartialOrd_f64_for_TwoFloat.partial_cmp v (f64lit 0)) = false)
+    (h3 : (v.hi <. f64lit 0x0170000000000000) = false) :
     TwoFloat.ln v =
       (let x0 := convert.impl_From_f64_for_TwoFloat.from (Libm.log v.hi)
        let x1 := arithmetic.impl_AddAssign_TwoFloat_for_TwoFloat.add_assign x0 (corr v x0)
@@ -933,9 +961,8 @@ theorem ln_eq_steps (v : TwoFloat)
        arithmetic.impl_Sub_f64_for_TwoFloat.sub (arithmetic.impl_Add_TwoFloat_for_TwoFloat.add x2
          (arithmetic.impl_Mul_TwoFloat_for_TwoFloat.mul v (TwoFloat.exp (arithmetic.impl_Neg_for_TwoFloat.neg x2))))
          (f64lit 0x3ff0000000000000)) := by
-  unfold TwoFloat.ln
-  simp only [h1, h2]
-  rfl
+  rw [LnCore.ln_eq_lnCore v h3]
+  exact lnCore_eq_steps v h1 h2
 
 /-- **accuracy of `TwoFloat::ln`, given the accuracy of the seed**: for a valid `v` with high word in
 `[2^-1000, 2^960 − 2^944]`, `|ln(v) − ln v| ≤ 2^-101·(1 + |ln v|)` -/
@@ -979,7 +1006,7 @@ theorem ln_bound_of_seed (v : TwoFloat) (hv : v.Valid) (hw : v.WF)
       have := ROrd.isLe_ofInts.1 hc
       rw [toInt_zero] at this
       omega
-    rw [ln_eq_steps v hone hle]
+    rw [ln_eq_steps v hone hle (not_tiny_of_fv hv.1 hlo)]
     dsimp only
     -- the seed
     have hLw : (Libm.log v.hi).WF := PF.libm_log_WF hw.1
